@@ -6,6 +6,7 @@ import (
 	"errors"
 	"fmt"
 	"os"
+	"path/filepath"
 	"runtime"
 	"runtime/debug"
 	"strings"
@@ -30,17 +31,19 @@ type childOut struct {
 const obsSep = "\x1f"
 
 type executor struct {
-	h     *History
-	twin  bool
-	ctx   context.Context
-	cache wazero.CompilationCache
-	rts   [2]wazero.Runtime
-	hosts [2]api.Module
-	comps [2][]wazero.CompiledModule
-	bins  [][]byte
-	insts []api.Module
-	held  []api.Function
-	hargs [][]uint64
+	h      *History
+	twin   bool
+	ctx    context.Context
+	cache  wazero.CompilationCache
+	rts    [maxRT]wazero.Runtime
+	hosts  [maxRT]api.Module
+	comps  [maxRT][]wazero.CompiledModule
+	comps2 [maxRT][]wazero.CompiledModule // the same runtime compiled the same binary a second time
+	dir    string
+	bins   [][]byte
+	insts  []api.Module
+	held   []api.Function
+	hargs  [][]uint64
 
 	subs   []Op     // pending in-call sub-ops of the current step
 	subObs []string // their observations
@@ -90,16 +93,51 @@ func runHistory(h *History, twin bool, progress func(step int)) *childOut {
 	for _, s := range h.Mods {
 		e.bins = append(e.bins, buildModule(s))
 	}
-	if h.Cache {
+	switch h.CacheKind {
+	case "mem":
 		e.cache = wazero.NewCompilationCache()
+	case "dir-cold", "dir-warm":
+		// under the check's out directory (removed by the parent at the end of the run, also after child deaths)
+		base := filepath.Join(core.VerifDir(), "out", "C09", fmt.Sprintf("cache-%d", os.Getppid()))
+		os.MkdirAll(base, 0o755)
+		dir, err := os.MkdirTemp(base, "d")
+		if err != nil {
+			panic("cache dir: " + err.Error())
+		}
+		e.dir = dir
+		if h.CacheKind == "dir-warm" {
+			// another cache object (and runtime) fills the directory; the history then uses a NEW object on it:
+			// in-memory miss, file hit
+			if c0, err := wazero.NewCompilationCacheWithDir(dir); err == nil {
+				cfg := wazero.NewRuntimeConfigInterpreter()
+				if h.Compiler {
+					cfg = wazero.NewRuntimeConfigCompiler()
+				}
+				if h.EnsureTerm {
+					cfg = cfg.WithCloseOnContextDone(true)
+				}
+				rt0 := wazero.NewRuntimeWithConfig(e.ctx, cfg.WithCompilationCache(c0))
+				for _, b := range e.bins {
+					rt0.CompileModule(e.ctx, b)
+				}
+				rt0.Close(e.ctx)
+				c0.Close(e.ctx)
+			}
+		}
+		c, err := wazero.NewCompilationCacheWithDir(dir)
+		if err != nil {
+			panic("cache dir: " + err.Error())
+		}
+		e.cache = c
 	}
 	nrt := 1
-	if h.TwoRT {
-		nrt = 2
+	if h.NRT > 1 {
+		nrt = h.NRT
 	}
 	for r := 0; r < nrt; r++ {
 		e.rts[r] = wazero.NewRuntimeWithConfig(e.ctx, e.rtConfig())
 		e.comps[r] = make([]wazero.CompiledModule, len(h.Mods))
+		e.comps2[r] = make([]wazero.CompiledModule, len(h.Mods))
 		hm, err := e.rts[r].NewHostModuleBuilder("host").NewFunctionBuilder().
 			WithGoModuleFunction(api.GoModuleFunc(func(ctx context.Context, mod api.Module, stack []uint64) { e.act() }),
 				[]api.ValueType{api.ValueTypeI32}, nil).Export("act").
@@ -142,7 +180,7 @@ func runHistory(h *History, twin bool, progress func(step int)) *childOut {
 	// tear down for real in every mode and collect (uncounted), so that a child
 	// neither accumulates mappings nor carries this history's garbage into the
 	// next one's mapping census
-	rts, cache := e.rts, e.cache
+	rts, cache, dir := e.rts, e.cache, e.dir
 	*e = executor{out: e.out}
 	for r := 0; r < nrt; r++ {
 		if rts[r] != nil {
@@ -152,7 +190,10 @@ func runHistory(h *History, twin bool, progress func(step int)) *childOut {
 	if cache != nil {
 		cache.Close(context.Background())
 	}
-	rts, cache = [2]wazero.Runtime{}, nil
+	if dir != "" {
+		os.RemoveAll(dir)
+	}
+	rts, cache = [maxRT]wazero.Runtime{}, nil
 	gcAndDrain()
 	return e.out
 }
@@ -229,6 +270,13 @@ func (e *executor) callExport(mod api.Module, name string, args []uint64) string
 	})
 }
 
+func (e *executor) handles(op *Op) []wazero.CompiledModule {
+	if op.H > 0 {
+		return e.comps2[op.RT]
+	}
+	return e.comps[op.RT]
+}
+
 func (e *executor) exec(op *Op, inCall bool) string {
 	switch op.Kind {
 	case "compile":
@@ -240,8 +288,11 @@ func (e *executor) exec(op *Op, inCall bool) string {
 			if err != nil {
 				return errClass(err)
 			}
-			e.comps[op.RT][op.Slot] = cm
+			e.handles(op)[op.Slot] = cm
 			e.count("compiles")
+			if op.H > 0 {
+				e.count("compiles_same_binary_twice_in_one_runtime")
+			}
 			return "ok"
 		})
 	case "inst":
@@ -256,7 +307,7 @@ func (e *executor) exec(op *Op, inCall bool) string {
 			if e.h.Mods[op.Slot].Implicit {
 				mod, err = rt.InstantiateWithConfig(e.ctx, e.bins[op.Slot], cfg)
 			} else {
-				cm := e.comps[op.RT][op.Slot]
+				cm := e.handles(op)[op.Slot]
 				if cm == nil {
 					return "skip:no-compiled-module"
 				}
@@ -388,7 +439,7 @@ func (e *executor) exec(op *Op, inCall bool) string {
 			return guard(func() string { mod.Close(e.ctx); return "" })
 		}
 	case "closecomp":
-		if cm := e.comps[op.RT][op.Slot]; cm != nil {
+		if cm := e.handles(op)[op.Slot]; cm != nil {
 			e.count("close_compiled")
 			if inCall {
 				e.count("close_compiled_incall")
@@ -416,10 +467,10 @@ func (e *executor) exec(op *Op, inCall bool) string {
 		}
 		e.insts[op.Inst] = nil
 	case "dropcomp":
-		if e.comps[op.RT][op.Slot] != nil {
+		if e.handles(op)[op.Slot] != nil {
 			e.count("drop_compiled")
 		}
-		e.comps[op.RT][op.Slot] = nil
+		e.handles(op)[op.Slot] = nil
 	case "droprt":
 		if e.rts[op.RT] != nil {
 			e.count("drop_runtime")
